@@ -76,14 +76,25 @@ pub fn run_pure_check(id: &str, tier: &str, seed: u64) -> i32 {
     let rules: &[&str] = if id == "C18" { &["R18a", "R18b", "R18c", "R18d"] } else { &["R12a"] };
     let mut builds: Vec<(String, Value)> = vec![];
     let mut inconclusive: Vec<String> = vec![];
-    // 1. this process: debug build
-    let dbg = workload(id, thorough, seed);
-    builds.push(("native-debug(overflow-checks)".into(), serde_json::from_str(&dbg.to_json_string()).unwrap()));
+    // 1. debug build (this binary), in a child process: an abort (allocation failure, stack
+    //    overflow, double panic) escapes catch_unwind and must not take the checker down
+    let mut aborted: Vec<(String, String)> = vec![];
+    let me = std::env::current_exe().map(|p| p.to_string_lossy().to_string()).unwrap_or_default();
+    let dbg_json: Value = match run_json(std::process::Command::new(&me).args(["pure-sub", id, "--tier", tier, "--seed", &seed.to_string()])) {
+        Ok(v) => v,
+        Err(e) => {
+            aborted.push(("native-debug(overflow-checks)".into(), e));
+            json!({"cases": 0, "evals": {}, "classes": {}, "violations": {}, "samples": []})
+        }
+    };
+    builds.push(("native-debug(overflow-checks)".into(), dbg_json.clone()));
+    let dbg_evals = |r: &str| dbg_json["evals"][r].as_u64().unwrap_or(0);
+    let dbg_classes = |r: &str| dbg_json["classes"][r].as_u64().unwrap_or(0);
     // 2. release build of vmon
     match std::env::var("VMON_RELEASE_BIN") {
         Ok(p) if std::path::Path::new(&p).exists() => match run_json(std::process::Command::new(&p).args(["pure-sub", id, "--tier", tier, "--seed", &seed.to_string()])) {
             Ok(v) => builds.push(("native-release(wrapping)".into(), v)),
-            Err(e) => inconclusive.push(format!("release build run failed: {e}")),
+            Err(e) => aborted.push(("native-release(wrapping)".into(), e)),
         },
         _ => inconclusive.push("release build of the harness not available".into()),
     }
@@ -155,6 +166,22 @@ pub fn run_pure_check(id: &str, tier: &str, seed: u64) -> i32 {
             }
         }
     }
+    for (build, e) in &aborted {
+        // the workload process died: decoding / the fee test must never abort the process
+        let sig = format!("{}|process-aborted", if id == "C18" { "R18a" } else { "R12a" });
+        if let Some((p, s, what)) = known.matches(id, &sig) {
+            println!("KNOWN-FINDING: property={p} {s} -- {what}");
+            continue;
+        }
+        n_viol += 1;
+        let dir = format!("{}/replays", out_dir());
+        let _ = std::fs::create_dir_all(&dir);
+        let path = format!("{dir}/{id}-pure-process-aborted.json");
+        let _ = std::fs::write(&path, serde_json::to_string_pretty(&json!({"property": id, "engine": "pure", "build": build, "signature": sig, "witness": e, "rerun": format!("{me} pure-sub {id} --tier {tier} --seed {seed}")})).unwrap());
+        println!("VIOLATION property={id} replay={path}");
+        eprintln!("  [{build}] {sig}: {}", e.chars().take(500).collect::<String>());
+        exit = 1;
+    }
     for (sig, detail, path) in &sim_viol {
         if let Some((p, s, what)) = known.matches(id, sig) {
             if !seen_known.contains(s) {
@@ -168,9 +195,9 @@ pub fn run_pure_check(id: &str, tier: &str, seed: u64) -> i32 {
         eprintln!("  [sim] {sig}: {detail}");
         exit = 1;
     }
-    let target_evals: u64 = rules.iter().map(|r| dbg.evals.get(r).copied().unwrap_or(0)).sum();
-    let distinct: u64 = rules.iter().map(|r| dbg.classes.get(r).map(|s| s.len() as u64).unwrap_or(0)).sum();
-    if exit == 0 && (rules.iter().any(|r| dbg.evals.get(r).copied().unwrap_or(0) == 0) || !inconclusive.is_empty()) {
+    let target_evals: u64 = rules.iter().map(|r| dbg_evals(r)).sum();
+    let distinct: u64 = rules.iter().map(|r| dbg_classes(r)).sum();
+    if exit == 0 && (rules.iter().any(|r| dbg_evals(r) == 0) || !inconclusive.is_empty()) {
         println!("INCONCLUSIVE property={id} {:?}", inconclusive);
         exit = 2;
     }
@@ -188,7 +215,7 @@ pub fn run_pure_check(id: &str, tier: &str, seed: u64) -> i32 {
             "evaluations": total_cases,
             "distinct_nontrivial": distinct,
             "rule": rule_text,
-            "samples": dbg.samples,
+            "samples": dbg_json["samples"],
             "builds": per_build,
             "target_rule_evaluations_debug": target_evals,
             "exhaustive_parts": if id == "C18" { json!(["all byte strings of length <= 3", "all strings over the 7-letter alphabet up to length 7/8"]) } else { json!(["boundary cross product"]) },
